@@ -1,5 +1,8 @@
 import FxVerif.Model.C14
 import FxVerif.Proofs.C14
+import FxVerif.Proofs.C14Bank
+import FxVerif.Proofs.C14Queue
+import FxVerif.Proofs.C14Exec
 /-!
 # C14 — account migration moves everything, once, to the address that authorised it
 
@@ -349,6 +352,215 @@ theorem queues_rewritten_unbonding_index {s s' : State} {frm to : Addr} {sigOk :
     rw [hx]
     have := entriesOf_of_get s.ubds frm v es hg
     simp only [this, ↓reduceIte, true_or]
+
+
+/-! ## portfolio_moved: balances, redelegations, reward entitlement; totals -/
+
+theorem moved_bal (s : State) (frm to : Addr) : (moved s frm to).bal = (bankExecute s frm to).bal :=
+  exec_bal cfg (bankExecute s frm to) frm to
+
+/-- **portfolio_moved** (bank balances, every denomination): after an accepted migration the target holds its prior
+balance plus the source's, the source holds nothing, every other account (users, module pools) is untouched -/
+theorem portfolio_moved_balances {s s' : State} {frm to : Addr} {sigOk : Bool}
+    (h : migrate cfg s frm to sigOk = .ok s') (a : Addr) (d : Denom) :
+    balOf s'.bal a d =
+      if a = to then balOf s.bal to d + balOf s.bal frm d else if a = frm then 0 else balOf s.bal a d := by
+  obtain ⟨hne, _, _, _, _, _, _, rfl⟩ := migrate_ok_inv h
+  rw [moved_bal]
+  exact bankExecute_spec s frm to hne a d
+
+/-- **portfolio_moved** (redelegations, with all their entries: completion time, balance, unbonding id) -/
+theorem portfolio_moved_redelegations {s s' : State} {frm to : Addr} {sigOk : Bool}
+    (h : migrate cfg s frm to sigOk = .ok s') (d : Addr) (src dst : Val) :
+    get s'.reds (d, src, dst) =
+      if d = to then get s.reds (frm, src, dst) else if d = frm then none else get s.reds (d, src, dst) := by
+  obtain ⟨hne, _, _, _, _, _, _, rfl⟩ := migrate_ok_inv h
+  have hto := (target_without_staking_records h).2.2
+  show get (stakingExecute cfg (bankExecute s frm to) frm to).reds (d, src, dst) = _
+  rw [exec_reds]
+  exact rekey_spec s.reds frm to hne hto d (src, dst)
+
+/-- **portfolio_moved** (reward entitlement): for every validator the source delegates to, the distribution starting
+info (previous period, stake) of the source is moved under the target and the source keeps none; together with
+`portfolio_moved_frame` (validator reward periods untouched) and `portfolio_moved_delegations` (shares) these are the
+inputs of the F1 reward formula.  Starting infos of all other delegators, and of validators the source does not
+delegate to, are untouched. -/
+theorem portfolio_moved_starting_info {s s' : State} {frm to : Addr} {sigOk : Bool}
+    (h : migrate cfg s frm to sigOk = .ok s') (v : Val) :
+    ((∃ sh, get s.dels (frm, v) = some sh) →
+        get s'.startInfo (v, to) = (get s.startInfo (v, frm) <|> get s.startInfo (v, to)) ∧
+        get s'.startInfo (v, frm) = none) ∧
+    ((get s.dels (frm, v) = none) →
+        get s'.startInfo (v, to) = get s.startInfo (v, to) ∧ get s'.startInfo (v, frm) = get s.startInfo (v, frm)) ∧
+    (∀ a, a ≠ frm → a ≠ to → get s'.startInfo (v, a) = get s.startInfo (v, a)) := by
+  obtain ⟨hne, _, _, _, _, _, _, rfl⟩ := migrate_ok_inv h
+  have key : ∀ a, get (moved s frm to).startInfo (v, a) =
+      if ∃ p ∈ entriesOf s.dels frm, p.1.2 = v then
+        (if a = frm then none else if a = to then (get s.startInfo (v, frm) <|> get s.startInfo (v, to))
+         else get s.startInfo (v, a))
+      else get s.startInfo (v, a) := fun a => by
+    show get (stakingExecute cfg (bankExecute s frm to) frm to).startInfo (v, a) = _
+    rw [exec_startInfo]
+    exact get_siFold frm to hne _ _ v a
+  refine ⟨fun ⟨sh, hsh⟩ => ?_, fun hnone => ?_, fun a h1 h2 => ?_⟩
+  · have hex := entriesOf_of_get s.dels frm v sh hsh
+    refine ⟨?_, ?_⟩
+    · rw [key, if_pos hex, if_neg (fun e : to = frm => hne e.symm), if_pos rfl]
+    · rw [key, if_pos hex, if_pos rfl]
+  · have hno : ¬ ∃ p ∈ entriesOf s.dels frm, p.1.2 = v := fun ⟨p, hp, e⟩ => entriesOf_none s.dels frm v hnone p hp e
+    refine ⟨?_, ?_⟩ <;> rw [key, if_neg hno]
+  · rw [key, if_neg h1, if_neg h2]
+    split <;> rfl
+
+/-- delegated shares of an account with a validator (0 without a record) -/
+def sharesOf (s : State) (v : Val) (a : Addr) : Nat := (get s.dels (a, v)).getD 0
+/-- total balance of the unbonding entries of an account with a validator -/
+def unbondingOf (s : State) (v : Val) (a : Addr) : Nat := (((get s.ubds (a, v)).getD []).map (·.2.1)).sum
+/-- total balance of the redelegation entries of an account for a (source, destination) pair -/
+def redelegatingOf (s : State) (src dst : Val) (a : Addr) : Nat :=
+  (((get s.reds (a, src, dst)).getD []).map (·.2.1)).sum
+
+/-- **totals_unchanged**: over any duplicate-free set of accounts that contains both the source and the target (or
+neither) — in particular over all accounts — the total balance of every denomination, the total shares delegated to
+every validator, and the total unbonding and redelegating balance per validator (pair) are the same before and after an
+accepted migration; validator tokens are untouched (`portfolio_moved_frame`), and the module pools (bonded, not-bonded,
+gov), not being the source or the target, keep their balances (`portfolio_moved_balances`). -/
+theorem totals_unchanged {s s' : State} {frm to : Addr} {sigOk : Bool} (h : migrate cfg s frm to sigOk = .ok s')
+    (A : List Addr) (hA : A.Nodup) (hboth : frm ∈ A ↔ to ∈ A) :
+    (∀ d, sumOver A (fun a => balOf s'.bal a d) = sumOver A (fun a => balOf s.bal a d)) ∧
+    (∀ v, sumOver A (sharesOf s' v) = sumOver A (sharesOf s v)) ∧
+    (∀ v, sumOver A (unbondingOf s' v) = sumOver A (unbondingOf s v)) ∧
+    (∀ src dst, sumOver A (redelegatingOf s' src dst) = sumOver A (redelegatingOf s src dst)) := by
+  have hne := (migrate_ok_inv h).1
+  have hto := target_without_staking_records h
+  refine ⟨fun d => ?_, fun v => ?_, fun v => ?_, fun src dst => ?_⟩
+  · exact sumOver_moved _ _ frm to hne (fun a => portfolio_moved_balances h a d) A hA hboth
+  · exact sumOver_moved _ _ frm to hne (fun a => moved_measure s.dels s'.dels frm to hne hto.1
+      (fun d x => portfolio_moved_delegations h d x) (fun o => o.getD 0) rfl v a) A hA hboth
+  · exact sumOver_moved _ _ frm to hne (fun a => moved_measure s.ubds s'.ubds frm to hne hto.2.1
+      (fun d x => portfolio_moved_unbonding h d x) (fun o => ((o.getD []).map (·.2.1)).sum) rfl v a) A hA hboth
+  · exact sumOver_moved _ _ frm to hne (fun a => moved_measure s.reds s'.reds frm to hne hto.2.2
+      (fun d x => portfolio_moved_redelegations h d x.1 x.2) (fun o => ((o.getD []).map (·.2.1)).sum) rfl (src, dst) a)
+      A hA hboth
+
+/-! ## queues_rewritten: redelegation indexes, time-queue slices -/
+
+theorem moved_reds_eq (s : State) (frm to : Addr) :
+    (moved s frm to).redSrcIdx = (entriesOf s.reds frm).foldl (idxStepG mkSrc frm to) s.redSrcIdx ∧
+    (moved s frm to).redDstIdx = (entriesOf s.reds frm).foldl (idxStepG mkDst frm to) s.redDstIdx :=
+  ⟨exec_redSrcIdx cfg (bankExecute s frm to) frm to, exec_redDstIdx cfg (bankExecute s frm to) frm to⟩
+
+/-- **queues_rewritten** (redelegations-by-source-validator 0x35 and by-destination-validator 0x36 indexes): afterwards
+no entry of either index mentions the source, every redelegation of the target is indexed in both, and the entries of
+other delegators are untouched.  Hypothesis: before, neither index held an entry of the source without a redelegation
+record (an index entry is written and deleted together with its record). -/
+theorem queues_rewritten_redelegation_indexes {s s' : State} {frm to : Addr} {sigOk : Bool}
+    (h : migrate cfg s frm to sigOk = .ok s')
+    (hsrc : ∀ a b, (a, frm, b) ∈ s.redSrcIdx → ∃ es, get s.reds (frm, a, b) = some es)
+    (hdst : ∀ a b, (b, frm, a) ∈ s.redDstIdx → ∃ es, get s.reds (frm, a, b) = some es) :
+    (∀ a b, (a, frm, b) ∉ s'.redSrcIdx ∧ (b, frm, a) ∉ s'.redDstIdx) ∧
+    (∀ a b es, get s'.reds (to, a, b) = some es → (a, to, b) ∈ s'.redSrcIdx ∧ (b, to, a) ∈ s'.redDstIdx) ∧
+    (∀ a b d, d ≠ frm → d ≠ to →
+      (((a, d, b) ∈ s'.redSrcIdx ↔ (a, d, b) ∈ s.redSrcIdx) ∧ ((b, d, a) ∈ s'.redDstIdx ↔ (b, d, a) ∈ s.redDstIdx))) := by
+  have hr := portfolio_moved_redelegations h
+  obtain ⟨hne, _, _, _, _, _, _, rfl⟩ := migrate_ok_inv h
+  obtain ⟨e1, e2⟩ := moved_reds_eq s frm to
+  obtain ⟨s1, s2, s3⟩ := idxG_after mkSrc mkSrc_inj frm to hne s.reds s.redSrcIdx (fun x hx => hsrc x.1 x.2 hx)
+  obtain ⟨d1, d2, d3⟩ := idxG_after mkDst mkDst_inj frm to hne s.reds s.redDstIdx (fun x hx => hdst x.1 x.2 hx)
+  rw [← e1] at s1 s2 s3
+  rw [← e2] at d1 d2 d3
+  refine ⟨fun a b => ⟨s1 (a, b), d1 (a, b)⟩, fun a b es hg => ?_, fun a b d h1 h2 => ⟨s3 (a, b) d h1 h2, d3 (a, b) d h1 h2⟩⟩
+  rw [hr to a b] at hg
+  simp only [↓reduceIte] at hg
+  exact ⟨s2 (a, b) es hg, d2 (a, b) es hg⟩
+
+/-- **queues_rewritten** (time-queue slices, 0x41 unbonding queue and 0x42 redelegation queue), for every state: the
+slice stored under a completion time at which the source holds an entry (in whatever record, however many records or
+entries share that time, whoever else is in the slice) is the old slice with every element of the source renamed to the
+target, order kept; every other slice is untouched. -/
+theorem queues_rewritten_time_slices {s s' : State} {frm to : Addr} {sigOk : Bool}
+    (h : migrate cfg s frm to sigOk = .ok s') (t : Time) :
+    (hasEntryAt s.ubds frm t → get s'.ubdQ t = (get s.ubdQ t).map (List.map (renPair frm to))) ∧
+    (¬ hasEntryAt s.ubds frm t → get s'.ubdQ t = get s.ubdQ t) ∧
+    (hasEntryAt s.reds frm t → get s'.redQ t = (get s.redQ t).map (List.map (renTriple frm to))) ∧
+    (¬ hasEntryAt s.reds frm t → get s'.redQ t = get s.redQ t) := by
+  obtain ⟨hne, _, _, _, _, _, _, rfl⟩ := migrate_ok_inv h
+  have hu : get (moved s frm to).ubdQ t = if t ∈ entryTimes s.ubds frm then
+      (get s.ubdQ t).map (List.map (renG frm to)) else get s.ubdQ t := by
+    show get (stakingExecute cfg (bankExecute s frm to) frm to).ubdQ t = _
+    rw [exec_ubdQ]; exact get_qFold frm to hne _ _ t
+  have hr : get (moved s frm to).redQ t = if t ∈ entryTimes s.reds frm then
+      (get s.redQ t).map (List.map (renG frm to)) else get s.redQ t := by
+    show get (stakingExecute cfg (bankExecute s frm to) frm to).redQ t = _
+    rw [exec_redQ]; exact get_qFold frm to hne _ _ t
+  refine ⟨fun he => ?_, fun he => ?_, fun he => ?_, fun he => ?_⟩
+  · rw [hu, if_pos ((mem_entryTimes _ _ _).mpr he)]; rfl
+  · rw [hu, if_neg (fun e => he ((mem_entryTimes _ _ _).mp e))]
+  · rw [hr, if_pos ((mem_entryTimes _ _ _).mpr he)]; rfl
+  · rw [hr, if_neg (fun e => he ((mem_entryTimes _ _ _).mp e))]
+
+/-- **queues_rewritten** (no stale queue element, every moved entry still queued).  Hypothesis `hq`: before, every queue
+element of the source stands in the slice of a completion time at which the source holds an entry (queue elements are
+inserted together with their entry and leave with the slice; `MsgCancelUnbondingDelegation` is outside the modelled
+histories).  Then afterwards every slice is the old one with the source renamed, no slice mentions the source, and
+every entry of the target is announced in the slice of its completion time whenever the source's was. -/
+theorem queues_rewritten_no_stale_element {s s' : State} {frm to : Addr} {sigOk : Bool}
+    (h : migrate cfg s frm to sigOk = .ok s')
+    (hq : ∀ t sl, get s.ubdQ t = some sl → ∀ x ∈ sl, x.1 = frm → hasEntryAt s.ubds frm t)
+    (hr : ∀ t sl, get s.redQ t = some sl → ∀ x ∈ sl, x.1 = frm → hasEntryAt s.reds frm t) :
+    (∀ t, get s'.ubdQ t = (get s.ubdQ t).map (List.map (renPair frm to))) ∧
+    (∀ t, get s'.redQ t = (get s.redQ t).map (List.map (renTriple frm to))) ∧
+    (∀ t sl, get s'.ubdQ t = some sl → ∀ x ∈ sl, x.1 ≠ frm) ∧
+    (∀ t sl, get s'.redQ t = some sl → ∀ x ∈ sl, x.1 ≠ frm) ∧
+    (∀ v es e, get s'.ubds (to, v) = some es → e ∈ es →
+      (∃ sl, get s.ubdQ e.1 = some sl ∧ (frm, v) ∈ sl) → ∃ sl, get s'.ubdQ e.1 = some sl ∧ (to, v) ∈ sl) ∧
+    (∀ a b es e, get s'.reds (to, a, b) = some es → e ∈ es →
+      (∃ sl, get s.redQ e.1 = some sl ∧ (frm, a, b) ∈ sl) → ∃ sl, get s'.redQ e.1 = some sl ∧ (to, a, b) ∈ sl) := by
+  have hne := (migrate_ok_inv h).1
+  have hts := queues_rewritten_time_slices h
+  have clean : ∀ {γ : Type} (sl : List (Addr × γ)), (∀ x ∈ sl, x.1 ≠ frm) → sl.map (renG frm to) = sl := by
+    intro γ sl hsl
+    apply map_renG_of_clean
+    apply List.any_eq_false.mpr
+    intro x hx
+    have := hsl x hx
+    simpa using this
+  have hU : ∀ t, get s'.ubdQ t = (get s.ubdQ t).map (List.map (renPair frm to)) := fun t => by
+    by_cases he : hasEntryAt s.ubds frm t
+    · exact (hts t).1 he
+    · rw [(hts t).2.1 he]
+      cases hg : get s.ubdQ t with
+      | none => rfl
+      | some sl =>
+        have : ∀ x ∈ sl, x.1 ≠ frm := fun x hx e => he (hq t sl hg x hx e)
+        simp only [Option.map_some, renPair_eq, clean sl this]
+  have hR : ∀ t, get s'.redQ t = (get s.redQ t).map (List.map (renTriple frm to)) := fun t => by
+    by_cases he : hasEntryAt s.reds frm t
+    · exact (hts t).2.2.1 he
+    · rw [(hts t).2.2.2 he]
+      cases hg : get s.redQ t with
+      | none => rfl
+      | some sl =>
+        have : ∀ x ∈ sl, x.1 ≠ frm := fun x hx e => he (hr t sl hg x hx e)
+        simp only [Option.map_some, renTriple_eq, clean sl this]
+  refine ⟨hU, hR, fun t sl hg x hx => ?_, fun t sl hg x hx => ?_, fun v es e _ _ ⟨sl, hsl, hm⟩ => ?_,
+    fun a b es e _ _ ⟨sl, hsl, hm⟩ => ?_⟩
+  · rw [hU t] at hg
+    cases hg0 : get s.ubdQ t with
+    | none => rw [hg0] at hg; cases hg
+    | some sl0 =>
+      rw [hg0] at hg; cases hg
+      exact renG_clean frm to hne sl0 x hx
+  · rw [hR t] at hg
+    cases hg0 : get s.redQ t with
+    | none => rw [hg0] at hg; cases hg
+    | some sl0 =>
+      rw [hg0] at hg; cases hg
+      exact renG_clean frm to hne sl0 x hx
+  · refine ⟨sl.map (renPair frm to), by rw [hU, hsl]; rfl, ?_⟩
+    exact List.mem_map.mpr ⟨(frm, v), hm, by simp [renPair]⟩
+  · refine ⟨sl.map (renTriple frm to), by rw [hR, hsl]; rfl, ?_⟩
+    exact List.mem_map.mpr ⟨(frm, a, b), hm, by simp [renTriple]⟩
 
 
 /-! ## never_reused -/
